@@ -3,7 +3,7 @@
 //! over `SimFile`, and writes the observations as lines.
 use crate::sim::{Kind, SimFile};
 use crate::util::*;
-use futures::executor::block_on;
+use crate::util::block_on;
 use qcow2_rs::dev::{Qcow2Dev, Qcow2DevParams};
 use std::fmt::Write as _;
 use std::panic::{catch_unwind, AssertUnwindSafe};
